@@ -2,6 +2,7 @@ import CotengraVerif.Lemmas.PathInverse
 import CotengraVerif.Lemmas.Traverse
 import CotengraVerif.Lemmas.TraverseDfs
 import CotengraVerif.Lemmas.FromPath
+import CotengraVerif.Lemmas.EdgePath
 
 /-!
 # C10 — path formats convert into each other and into trees without loss
@@ -14,7 +15,8 @@ loop), `edge_path_to_ssa` (cotengra/pathfinders/path_basic.py:789-892); `_traver
 A tree is a `BT` with the orientation of `tree.children`; a node is its subtree (for distinct
 leaves all subtrees are distinct, `Paths.allNodes_nodup`).  `order` is an arbitrary function
 node → score.  Not modelled: steps of three or more tensors inside `from_path` (an optimizer
-fills them in), `autocomplete`, `edge_path_to_linear` (= `ssa_to_linear ∘ edge_path_to_ssa`).
+fills them in), `autocomplete`, `edge_path_to_linear` (= `ssa_to_linear ∘ edge_path_to_ssa`,
+both factors have theorems).
 -/
 namespace Cotengra.C10
 open Cotengra Cotengra.Paths
@@ -218,6 +220,46 @@ theorem path_roundtrip_traversals (l r : BT) (n : Nat) (hl : (BT.node l r).leave
   · obtain ⟨lp, h1, _, left, h2, _⟩ := path_roundtrip _ n hl _ (traverse_dfs_postorder l r hn).2
     exact ⟨lp, left, h1, h2⟩
 
+/-! ## edge paths -/
+
+/-- **`edge_path_to_ssa`**: for every duplicate-free sequence of indices that occur in the
+    inputs (a permutation or any sub-sequence), the function succeeds and returns exactly the path
+    of the leaf-set definition `specEdge` — for each index in turn, *all current tensors one of
+    whose leaves carries the index* are contracted (ids sorted), or nothing happens if there are
+    fewer than two — and that path is a valid SSA path. -/
+theorem edge_path_valid (inputs : List (List Ix)) (ep : List Ix) (hnd : ep.Nodup)
+    (hin : ∀ ix ∈ ep, ∃ t ∈ inputs, ix ∈ t) :
+    edgePathToSsa ep inputs = some (specEdge inputs ep) ∧
+      ValidSsa (List.range inputs.length) inputs.length (specEdge inputs ep) := by
+  have hkeys : ∀ ix ∈ ep, ix ∈ (edgeInit inputs).indToSsas.map (·.1) := by
+    intro ix hix
+    obtain ⟨t, ht, hixt⟩ := hin ix hix
+    obtain ⟨i, hi, he⟩ := List.getElem_of_mem ht
+    have h1 := (init_fold inputs).1
+    apply (h1.keys ix).2
+    refine Or.inl ⟨i, hi, ?_⟩
+    rw [List.getD_eq_getElem?_getD, List.getElem?_eq_getElem hi, he]
+    exact hixt
+  obtain ⟨e', h1, h2⟩ := esim_fold inputs ep (edgeInit inputs) (specInit inputs) (esim_init inputs) hnd hkeys
+  constructor
+  · unfold edgePathToSsa specEdge
+    rw [h1, Option.map_some, h2.path_eq]
+  · unfold specEdge
+    rw [foldl_specStep_path]
+    have hcur : (specInit inputs).cur.map (·.1) = List.range inputs.length := by
+      simp only [specInit, List.map_map]
+      conv => rhs; rw [← List.map_id (List.range inputs.length)]
+      apply List.map_congr_left
+      intro i _; rfl
+    have := specSuffix_valid inputs ep (specInit inputs) (by rw [hcur]; exact List.nodup_range)
+      (by rw [hcur]; intro s hs; exact List.mem_range.1 hs)
+    rw [hcur] at this
+    simpa [specInit] using this
+
+/-- the guard is needed: a repeated index raises `KeyError` -/
+theorem edge_path_repeated_index_raises :
+    edgePathToSsa [1, 1] [[0, 1], [1, 2]] = none := by decide
+
 /-! ## non-vacuity -/
 
 def exTree : BT := .node (.node (.leaf 3) (.node (.leaf 0) (.leaf 2))) (.node (.leaf 1) (.leaf 4))
@@ -232,6 +274,9 @@ example : (traverseDfs exTree == exTree.internal) = true := by decide
 example : (traverseOrdered exTree (fun x => 10 - x.leaves.length)).map (·.leaves) =
     [[0, 2], [3, 0, 2], [1, 4], [3, 0, 2, 1, 4]] := by decide
 example : cfCheck exTree (traverseOrdered exTree (fun x => x.leaves.length % 2)) = true := by decide
+example : edgePathToSsa [1, 0, 3, 2] [[0, 1], [1, 2], [2, 3], [3, 0, 4]] =
+    some [[0, 1], [3, 4], [2, 5]] := by decide
+example : specEdge [[0, 1], [1, 2], [2, 3], [3, 0, 4]] [1, 0, 3, 2] = [[0, 1], [3, 4], [2, 5]] := by decide
 example : exTree.leaves.Perm (List.range 5) := by decide
 example : getPath 5 (traverseDfs exTree) = some [[0, 2], [1, 3], [0, 1], [0, 1]] := by decide
 example : fromLinearPath 5 [[0, 2], [1, 3], [0, 1], [0, 1]] =
